@@ -68,6 +68,17 @@ def run(tier, seed):
                     ok = False
             pels.append(p)
             wf.append(ok)
+        # designed: text fields that contain what a JSON aligner looks for (quote, colon, runs of blanks), always taken through the command-line routes
+        forced = set()
+        for name_, sym_ in ((b'db "east":  standby', b'A":   B'), (b'":    x', b'k": {  "v":    1}')):
+            p = apel.gen_pel(rng, max_sections=0)
+            p['ph']['creator'] = ord('O')
+            p['sections'] = [{'kind': 'lp', 'hdr': apel.gen_hdr(rng), 'primary': 1, 'logId': 2, 'name': name_, 'targets': [1, 2], 'pad': 0},
+                             {'kind': 'eh', 'hdr': apel.gen_hdr(rng), 'mtm': b'9105-22A', 'sn': b'SN12345     ', 'fw': b'FW  "1":   060  ', 'subfw': b'sub":  1        ', 'resv': 0,
+                              'refTime': apel.gen_ts(rng), 'resv3': b'\0\0\0', 'sym': sym_}]
+            pels.append(p)
+            wf.append(True)
+            forced.add(id(p))
         replies = lean_batch([env.tokens()] + ['pelspec %s %s x' % (apel.tok_cfg(), apel.tok_pel(p)) for p in pels])[1:]
         for p, ok, r in zip(pels, wf, replies):
             data = r.bytes()
@@ -79,7 +90,7 @@ def run(tier, seed):
             ck.count('in domain' if ok else 'outside domain (non-ASCII text): correspondence only -> %s' % real[0])
             for s in p['sections']:
                 ck.count('kind ' + s['kind'])
-            compare(ck, p, data, real, model, spec if ok else None, label='hdr', env_kwargs=dict(allow=True, comp_ids=COMP_IDS))
+            compare(ck, p, data, real, model, spec if ok else None, label='hdr', env_kwargs=dict(allow=True, comp_ids=COMP_IDS), extra={'force_routes': id(p) in forced})
     finally:
         env.uninstall()
     return ck.finish(RULE, TRUSTED, ASSUME)
